@@ -111,3 +111,57 @@ Qed.
 Print Assumptions elements_cover_kernel_window.
 Print Assumptions loaded_8bit_sample_covers_every_kernel.
 Print Assumptions loaded_16bit_sample_covers_every_kernel.
+
+(* ---------------------------------------------------------------- the mixer's segment rule ------------------------------------------------------
+   mixer.c mixes a voice in segments: from position P + F/65536 it asks a kernel for at most
+   ceil((end - pos) / step) output frames, i.e. for a count with F + (count - 1) * step < (E - P) * 65536, where E <= len is the
+   voice's end (loop end or sample end).  Under exactly that rule every fetch position of the call - with the half-frame rounding
+   of the nearest kernels - lies between frame 0 and one frame past the end, so the call reads inside the loaded block. *)
+Lemma pos_at_forward : forall c a st P E count,
+  0 <= s_frac st < 65536 -> s_pos st = P * chn_of c -> 0 <= P -> 0 < a_step a ->
+  s_frac st + (count - 1) * a_step a < (E - P) * 65536 ->
+  forall k, 0 <= k < count -> 0 <= pos_at c a st k <= E * chn_of c.
+Proof.
+  intros c a st P E count Hf Hp HP HS Hrule k Hk.
+  assert (M1 : k * a_step a <= (count - 1) * a_step a) by (apply Z.mul_le_mono_nonneg_r; lia).
+  assert (M0 : 0 <= k * a_step a) by (apply Z.mul_nonneg_nonneg; lia).
+  unfold pos_at, start_state.
+  set (d := k * a_step a) in *. clearbody d.
+  assert (Hk2 : s_frac st + d < (E - P) * 65536) by lia.
+  assert (C12 : chn_of c = 1 \/ chn_of c = 2) by (unfold chn_of; destruct (k_sin c); lia).
+  destruct (k_interp c) eqn:EI.
+  - (* nearest: frac + 32768 first *)
+    pose proof (advance_spec (chn_of c) (2 ^ (C_SMIX_SHIFT - 1)) st Hf) as [A1 A2].
+    change (2 ^ (C_SMIX_SHIFT - 1)) with 32768 in *. change (2 ^ C_SMIX_SHIFT) with 65536.
+    rewrite A1, A2, Hp.
+    set (f := s_frac st) in *.
+    pose proof (div_chain (f + 32768) d) as DC.
+    assert (Q : 0 <= (f + 32768 + d) / 65536 < E - P + 1).
+    { split; [apply Z.div_pos; lia|]. apply Z.div_lt_upper_bound; lia. }
+    set (q1 := (f + 32768) / 65536) in *. set (q2 := ((f + 32768) mod 65536 + d) / 65536) in *. set (q := (f + 32768 + d) / 65536) in *.
+    clearbody q1 q2 q. destruct C12 as [C|C]; rewrite C; lia.
+  - change (2 ^ C_SMIX_SHIFT) with 65536. rewrite Hp.
+    assert (Q : 0 <= (s_frac st + d) / 65536 < E - P).
+    { split; [apply Z.div_pos; lia|]. apply Z.div_lt_upper_bound; lia. }
+    set (q := (s_frac st + d) / 65536) in *. clearbody q. destruct C12 as [C|C]; rewrite C; lia.
+  - change (2 ^ C_SMIX_SHIFT) with 65536. rewrite Hp.
+    assert (Q : 0 <= (s_frac st + d) / 65536 < E - P).
+    { split; [apply Z.div_pos; lia|]. apply Z.div_lt_upper_bound; lia. }
+    set (q := (s_frac st + d) / 65536) in *. clearbody q. destruct C12 as [C|C]; rewrite C; lia.
+Qed.
+
+Theorem forward_segment_reads_inside_block_8bit : forall skip flags s file pos nbuf s' blk pos' c a count ramp st buf P E,
+  load_sample skip flags s file pos nbuf = Loaded s' blk pos' ->
+  framelen_of (s_flg s) = chn_of c ->
+  0 <= s_frac st < 65536 -> s_pos st = P * chn_of c -> 0 <= P -> E <= s_len s' -> 0 < a_step a ->
+  s_frac st + (count - 1) * a_step a < (E - P) * 65536 ->
+  (Z.to_nat (Z.max 0 count) * (if k_sout c then 2 else 1) <= length buf)%nat ->
+  kernel c {| m_data := blk; m_base := 4 |} a count ramp st buf <> None.
+Proof.
+  intros skip flags s file pos nbuf s' blk pos' c a count ramp st buf P E HL HF Hf Hp HP HE HS Hrule Hb.
+  eapply loaded_8bit_sample_covers_every_kernel; eauto.
+  intros k Hk. pose proof (pos_at_forward c a st P E count Hf Hp HP HS Hrule k Hk) as [A B].
+  assert (C12 : chn_of c = 1 \/ chn_of c = 2) by (unfold chn_of; destruct (k_sin c); lia).
+  split; [exact A|]. destruct C12 as [C|C]; rewrite C in *; lia.
+Qed.
+Print Assumptions forward_segment_reads_inside_block_8bit.
